@@ -410,7 +410,16 @@ fn main()
         if i % 3 == 0 { if let Some((r, a)) = tuples_line(&cs, 2, shots / 4, seed, "stabilizer") { out.case(&r, &a); } }
     }
     // structured Clifford circuits of fragment F (several X-carrying generator rows on the measured qubit)
-    for _ in 0..(ncirc / 2).max(8)
+    // (fixed: the parity qubit of 2 / 3 superposed controls measured, then every control measured in the X basis: the X-type
+    // correlations are exactly what a wrong collapse loses)
+    for ct in [lit(3, 3, &["gate 1 0 H", "gate 1 1 H", "gate 2 0 2 CX", "gate 2 1 2 CX", "measure 2 2 Z", "measure 0 0 X", "measure 1 1 X"]),
+        lit(4, 4, &["gate 1 0 H", "gate 1 1 H", "gate 1 2 H", "gate 2 0 3 CX", "gate 2 1 3 CX", "gate 2 2 3 CX", "measure 3 3 Z", "measure 0 0 X", "measure 1 1 X", "measure 2 2 X"]),
+        lit(3, 3, &["gate 1 1 H", "gate 1 2 H", "gate 2 2 0 CX", "gate 2 1 0 CY", "measure 0 0 Z", "measure 1 1 X", "measure 2 2 Y"])].iter()
+    {
+        let seed = rng.next();
+        for repr in ["stabilizer", "auto", "vector"].iter() { if let Some((r, a)) = hist_line(ct, shots, seed, repr) { out.case(&r, &a); } }
+    }
+    for _ in 0..(2 * ncirc).max(8)
     {
         let ct = gen_parity_circuit(&mut rng, false, false);
         let seed = rng.next();
